@@ -957,7 +957,7 @@ func (vf *VerifyFunc) checkPost(st *State, fr *Frame, rs []*Val, in ssa.Instruct
 		t := vf.evalClause(st, c, env, nil)
 		st.check("post", lbl(c, fmt.Sprint(i)), c.Prop, c.Src, where, t)
 	}
-	if vf.fc.HasMod {
+	if vf.fc.HasMod && !vf.fc.Flags["trustedframe"] {
 		vf.checkFrame(st, where, "frame")
 	}
 	if vf.lockcheck {
